@@ -33,6 +33,7 @@ fn main() {
         "c08" => cursor::run_c08(&tier, seed, &mut out),
         "loop" | "loopadv" => runtime::run_stream(&args[1], &tier, seed, &mut out),
         "ignore" => runtime::run_ignore_stream(&tier, seed, &mut out),
+        "isolate" => runtime::run_isolate_stream(&tier, seed, &mut out),
         "compile" => lang::run_compile_basic(&tier, seed, &mut out),
         "c10" => lang::run_c10(&tier, seed, &mut out),
         "c14" => lang::run_c14(&tier, seed, &mut out),
@@ -57,6 +58,9 @@ fn main() {
                     else if cmd == "ignore" {
                         let d = runtime::prog_descriptors();
                         match arg.split_once(" ## ") { Some((a, b)) => format!("{} ## {}", runtime::with_descriptors(a, &d), runtime::with_descriptors(b, &d)), None => arg.to_string() }
+                    } else if cmd == "isolate" {
+                        let d = runtime::prog_descriptors();
+                        match arg.split_once(" @@ ") { Some((a, b)) => format!("{} @@ {}", runtime::with_descriptors(a, &d), b), None => arg.to_string() }
                     } else { arg.to_string() };
                 writeln!(out, "{}\t{}\t{}", cmd, arg2, res).unwrap();
             }
@@ -72,6 +76,7 @@ fn eval(cmd: &str, arg: &str) -> String {
         "cursor" => cursor::eval(param, arg),
         "loop" => runtime::eval(arg),
         "ignore" => runtime::eval_ignore(arg),
+        "isolate" => runtime::eval_isolate(arg),
         "compile" => lang::eval(arg),
         "dp" => "PENDING-CREF".to_string(),
         "frombuf" => wire::frombuf_str(&util::unhex(arg)),
